@@ -32,7 +32,7 @@ def draw_faults(d, nf, kinds, horizon):
     for k in range(nf):
         idx = d.int(0, horizon, 'fault%d_at' % k)
         kind = d.pick(kinds, 'fault%d_kind' % k)
-        arg = d.pick([1, 2], 'fault%d_hold' % k) if kind == nl.HOLD else 1
+        arg = d.pick([1, 2], 'fault%d_hold' % k) if kind in (nl.HOLD, nl.DELAY) else 1
         faults.append(nl.Fault(idx, kind, arg))
     return faults
 
@@ -40,7 +40,7 @@ def draw_faults(d, nf, kinds, horizon):
 @meta(bounds="two complete stacks on the fault-injecting virtual LAN; max APDU S both sides; segmentation support, "
              "proposed windows, retry count, IOCB-or-direct fixed per instance; request/response payload length "
              "symbolic inside the instance's window with every octet symbolic; nf faults, each at a symbolic frame "
-             "index 0..horizon with kind symbolic in {drop, duplicate, hold-and-release-after-1-or-2-later-frames, "
+             "index 0..horizon with kind symbolic in {drop, duplicate, late arrival (reordered behind 1 or 2 younger frames, same instant), delay (behind 1 or 2 younger frames, across timeouts), "
              "silence-from-here-on}; server answers ack / error / reject / abort / nothing (mode fixed per instance)",
       outside="more than nf faults; fault positions beyond frame index `horizon`; max APDU sizes other than S; "
               "threads (IOCB.wait); corrupted (as opposed to lost/duplicated/delayed) frames",
@@ -50,7 +50,7 @@ def draw_faults(d, nf, kinds, horizon):
 def txn(d, iocb, S, segc, segs, wc, ws, retries, req, resp, nf, kinds, horizon, mode="ack"):
     w = World()
     faults = draw_faults(d, nf, kinds, horizon)
-    lan = nl.FaultLAN(faults)
+    lan = nl.FaultLAN(faults, world=w)
     cdev = nl.make_device("c", 10, maxApduLengthAccepted=S, segmentationSupported=SEG[segc],
                           numberOfApduRetries=retries, apduTimeout=APDU_TIMEOUT, apduSegmentTimeout=SEG_TIMEOUT)
     sdev = nl.make_device("s", 20, maxApduLengthAccepted=S, segmentationSupported=SEG[segs],
@@ -121,14 +121,14 @@ def txn(d, iocb, S, segc, segs, wc, ws, retries, req, resp, nf, kinds, horizon, 
     d.reach()
 
 
-ALL_KINDS = [nl.DROP, nl.DUP, nl.HOLD, nl.SILENCE]
+ALL_KINDS = [nl.DROP, nl.DUP, nl.HOLD, nl.DELAY, nl.SILENCE]
 
 
 def label(p):
     return "%s,S%d,seg%d/%d,w%d/%d,r%d,req%s,resp%s,%dx%s,%s%s" % (
         "iocb" if p["iocb"] else "direct", p["S"], p["segc"], p["segs"], p["wc"], p["ws"], p["retries"],
         "-".join(map(str, p["req"])), "-".join(map(str, p["resp"])), p["nf"],
-        "".join("DUHS"[k] for k in p["kinds"]), p["mode"],
+        "".join("DUHSL"[k] for k in p["kinds"]), p["mode"],
         (",first=" + nl.FAULT_NAMES[p["first_kind"]]) if "first_kind" in p else "")
 
 
@@ -146,7 +146,7 @@ def instances(tier):
             dict(iocb=False, segc=both, segs=both, req=(3, 3), resp=(3, 3), nf=1, kinds=ALL_KINDS),
             dict(iocb=True, segc=both, segs=both, req=(0, 1), resp=(2, 2), nf=1, kinds=ALL_KINDS),
             # segmented request (2 / 3 segments), unsegmented response
-            dict(iocb=False, segc=both, segs=both, req=(60, 60), resp=(2, 2), nf=1, kinds=[nl.DROP, nl.DUP, nl.SILENCE]),
+            dict(iocb=False, segc=both, segs=both, req=(60, 60), resp=(2, 2), nf=1, kinds=[nl.DROP, nl.DUP, nl.HOLD, nl.SILENCE]),
             dict(iocb=True, segc=both, segs=both, req=(100, 100), resp=(0, 0), nf=1, kinds=[nl.DROP, nl.DUP]),
             # unsegmented request, segmented response
             dict(iocb=True, segc=both, segs=both, req=(2, 2), resp=(60, 60), nf=1, kinds=ALL_KINDS),
@@ -218,7 +218,7 @@ def _txn_kinds(d, kinds_per_fault, **p):
         for k in range(nf):
             idx = d_.int(0, horizon, 'fault%d_at' % k)
             kind = d_.pick(kinds_per_fault[k], 'fault%d_kind' % k)
-            arg = d_.pick([1, 2], 'fault%d_hold' % k) if kind == nl.HOLD else 1
+            arg = d_.pick([1, 2], 'fault%d_hold' % k) if kind in (nl.HOLD, nl.DELAY) else 1
             faults.append(nl.Fault(idx, kind, arg))
         return faults
     globals()['draw_faults'] = df
